@@ -23,6 +23,15 @@
 From Coq Require Import ZArith List Bool.
 Import ListNotations.
 From Cffi Require Import C20.Gen.      (* regenerated order fact about convert_array_from_object *)
+(* The leaf stores are NOT written here: they are the functions other properties prove correct and tie
+   to regenerated source text (qualified names, nothing is imported into the namespace):
+     integers / _Bool   C03.Store.convert_from_object_int  (= regenerated gen_store: C03_gen_store_refines)
+     bit-fields         C02.Model.bf_write                 (= regenerated gen_write: C02_gen_write_refines)
+     bytes / str into character arrays, str lengths, single wide characters
+                        C15.Model.convert_array, new_array_length, as_single_char16/32
+                        (C15/Gen.v: regenerated from wchar_helper_3.h)
+     byte encodings     C03.Mem.encode_le / decode_le *)
+From Cffi Require C03.Mem C03.Store C02.Model C15.Model.
 Open Scope Z_scope.
 
 Inductive err := TypeError | ValueError | IndexError | KeyError | OverflowError
@@ -92,70 +101,81 @@ Definition write (off : Z) (bs : list Z) (m : mem) : res mem :=
 
 Definition read (off n : Z) (m : mem) : list Z := firstn (Z.to_nat n) (skipn (Z.to_nat off) m).
 
-Definition le_bytes (n z : Z) : list Z :=
-  map (fun i => (z / 2 ^ (8 * Z.of_nat i)) mod 256) (seq 0 (Z.to_nat n)).
-Fixpoint le_decode (bs : list Z) : Z :=
-  match bs with [] => 0 | b :: r => b + 256 * le_decode r end.
+(* little-endian encodings: C03/Mem.v's *)
+Definition le_bytes (n z : Z) : list Z := C03.Mem.encode_le (Z.to_nat n) z.
+Definition le_decode (bs : list Z) : Z := C03.Mem.decode_le bs.
+
+(* ------------------------------------------------------------------ adapters to the shared models
+   An outcome the shared models call undefined behaviour (C03 UB, C02 BUB), or an exception class
+   that cffi never raises here (C15: SystemError, BufferMisuse, ...), becomes SegV: the theorems
+   "... <> Err SegV" then also say that no leaf store runs into C undefined behaviour. *)
+Definition ity_of (k : pkind) (s : Z) : C03.Store.ity :=
+  C03.Store.mk_ity (Z.to_nat s) (match k with KSigned => true | _ => false end)
+                   (match k with KBool => true | _ => false end).
+Definition of_exc (e : C03.Store.exc) : err :=
+  match e with C03.Store.OverflowError => OverflowError | C03.Store.TypeError => TypeError end.
+Definition of_c03 (r : C03.Store.res unit * list Z) : res (list Z) :=
+  match r with
+  | (C03.Store.Ok _, d) => Ok d
+  | (C03.Store.Err e, _) => Err (of_exc e)
+  | (C03.Store.UB, _) => Err SegV
+  end.
+Definition of_c02 (r : C02.Model.bres unit * list Z) : res (list Z) :=
+  match r with
+  | (C02.Model.BOk _, d) => Ok d
+  | (C02.Model.BErr e, _) => Err (of_exc e)
+  | (C02.Model.BUB, _) => Err SegV
+  end.
+Definition of_exn (e : C15.Spec.exn) : err :=
+  match e with
+  | C15.Spec.IndexError => IndexError | C15.Spec.TypeError => TypeError
+  | C15.Spec.ValueError => ValueError | _ => SegV
+  end.
+Definition of_c15 {A} (r : C15.Spec.res A) : res A :=
+  match r with C15.Spec.Ok a => Ok a | C15.Spec.Err e => Err (of_exn e) end.
+(* the element type of a character array with items of `isz` bytes *)
+Definition ety_of (isz : Z) : C15.Model.ety :=
+  if isz =? 1 then C15.Model.E8 else if isz =? 2 then C15.Model.E16 else C15.Model.E32.
 
 (* ------------------------------------------------------------------ primitives *)
 
-(* convert_from_object 1719-1790 for one primitive; always `size` bytes *)
-Definition conv_prim (k : pkind) (s : Z) (v : pyval) : res (list Z) :=
+(* convert_from_object :1719-1790 for one primitive; always `size` bytes.  `old`: the present
+   content of the target (what the C03 store returns unchanged when it refuses the value) *)
+Definition conv_prim (k : pkind) (s : Z) (v : pyval) (old : list Z) : res (list Z) :=
   match k, v with
-  | KSigned, VInt z =>
-      if (- 2 ^ (8 * s - 1) <=? z) && (z <? 2 ^ (8 * s - 1)) then Ok (le_bytes s z) else Err OverflowError
-  | KUnsigned, VInt z =>
-      if (0 <=? z) && (z <? 2 ^ (8 * s)) then Ok (le_bytes s z) else Err OverflowError
-  | KBool, VInt z => if (0 <=? z) && (z <=? 1) then Ok (le_bytes s z) else Err OverflowError
+  | KSigned, VInt z | KUnsigned, VInt z | KBool, VInt z =>
+      of_c03 (C03.Store.convert_from_object_int (ity_of k s) z old)
   | KFloat, VFloat e4 e8 =>
       let e := if s =? 4 then e4 else e8 in
       if mlen e =? s then Ok e else Err TypeError
   | KChar, VBytes [b] => if s =? 1 then Ok (le_bytes s b) else Err TypeError
-  | KChar, VStr [c] =>
+  | KChar, VStr cps =>
       if s =? 1 then Err TypeError
-      else if (s =? 2) && (65535 <? c) then Err TypeError     (* _my_PyUnicode_AsSingleChar16 *)
-      else Ok (le_bytes s c)
+      else match (if s =? 2 then C15.Gen.as_single_char16 cps      (* _my_PyUnicode_AsSingleChar16 *)
+                  else C15.Gen.as_single_char32 cps) with
+           | Some u => Ok (le_bytes s u)
+           | None => Err TypeError
+           end
   | KPtr, VPtr a => Ok (le_bytes s a)
   | _, _ => Err TypeError
   end.
 
-(* convert_from_object_bitfield 1819: range check, then read-modify-write of the whole unit *)
+(* convert_from_object_bitfield :1819 (fields narrower than long long): PyLong_AsLongLong, range
+   check, then read-modify-write of the whole unit — C02's bf_write on the unit's bytes *)
 Definition conv_bitfield (k : pkind) (s shift bits : Z) (v : pyval) (unit_old : list Z) : res (list Z) :=
   match v with
-  | VInt z =>
-      if (z <? - 2 ^ 63) || (2 ^ 63 <=? z) then Err OverflowError      (* PyLong_AsLongLong *)
-      else
-      let '(fmin, fmax) :=
-        match k with
-        | KSigned => (- 2 ^ (bits - 1), if 2 ^ (bits - 1) - 1 =? 0 then 1 else 2 ^ (bits - 1) - 1)
-        | _ => (0, 2 ^ bits - 1)
-        end in
-      if (z <? fmin) || (fmax <? z) then Err OverflowError
-      else
-        let rawmask := Z.shiftl (Z.ones bits) shift in
-        let rawvalue := Z.shiftl (z mod 2 ^ 64) shift in
-        let old := le_decode unit_old in
-        Ok (le_bytes s (Z.lor (Z.land old (Z.lnot rawmask)) (Z.land rawvalue rawmask) mod 2 ^ (8 * s)))
+  | VInt z => of_c02 (C02.Model.bf_write (ity_of k s) bits shift z unit_old)
   | _ => Err TypeError
   end.
 
 Definition SSIZE_MAX := 2 ^ 63 - 1.
 
-(* wchar_helper_3.h: a str as char16_t units (_my_PyUnicode_AsChar16: astral code points become
-   surrogate pairs, _my_PyUnicode_SizeAsChar16 counts them twice) or as char32_t units *)
-Definition utf16_units (cps : list Z) : list Z :=
-  flat_map (fun c => if 65535 <? c
-                     then [Z.lor 55296 (Z.shiftr (c - 65536) 10); Z.lor 56320 (Z.land (c - 65536) 1023)]
-                     else [c]) cps.
-Definition str_units (itemsize : Z) (cps : list Z) : list Z :=
-  if itemsize =? 2 then utf16_units cps else cps.
-
 (* get_new_array_length 1345 (ctitem->ct_size, value): (length, was the initialiser only a length?) *)
 Definition get_new_array_length (itemsize : Z) (v : pyval) : res (Z * bool) :=
   match v with
   | VList l => Ok (mlen l, false)
-  | VBytes b => Ok (mlen b + 1, false)
-  | VStr c => Ok (mlen (str_units itemsize c) + 1, false)
+  | VBytes b => Ok (C15.Model.new_array_length (ety_of itemsize) (C15.Model.PBytes b), false)
+  | VStr c => Ok (C15.Model.new_array_length (ety_of itemsize) (C15.Model.PStr c), false)
   | VInt z => if z <? 0 then Err ValueError
               else if SSIZE_MAX <? z then Err OverflowError else Ok (z, true)
   | _ => Err TypeError
@@ -258,19 +278,14 @@ Definition fill_array (rec : Z -> pyval -> mem -> res mem) (item : ltype) (len o
       else fill_items rec off isz l m
   | VBytes b =>
       if one_byte_item item then
-        if (0 <=? len) && (len <? mlen b) then Err IndexError
-        else
-          let src := if mlen b =? len then b else b ++ [0] in
-          if is_bool_item item && existsb (fun c => 1 <? c) src then Err ValueError
-          else write off src m
+        bind (of_c15 (C15.Model.convert_array C15.Model.E8 len (C15.Model.PBytes b))) (fun src =>
+        if is_bool_item item && existsb (fun c => 1 <? c) src then Err ValueError
+        else write off src m)
       else Err TypeError
   | VStr c =>
       if wide_char_item item then
-        let u := str_units isz c in
-        if (0 <=? len) && (len <? mlen u) then Err IndexError
-        else
-          let src := if mlen u =? len then u else u ++ [0] in
-          write off (flat_map (le_bytes isz) src) m
+        bind (of_c15 (C15.Model.convert_array (ety_of isz) len (C15.Model.PStr c))) (fun us =>
+        write off (flat_map (le_bytes isz) us) m)
       else Err TypeError
   | VCData true data alen =>
       (* same ctype, so get_array_length is ct_length when that is known *)
@@ -320,7 +335,7 @@ Fixpoint fill (fuel : nat) (t : ltype) (off : Z) (v : pyval) (m : mem) : res mem
   | O => Err OutOfFuel
   | S fuel' =>
     match t with
-    | LPrim k s => bind (conv_prim k s v) (fun bs => write off bs m)
+    | LPrim k s => bind (conv_prim k s v (read off s m)) (fun bs => write off bs m)
     | LArr item len =>
         fill_array (fun off x m => bind (item_guard fuel' item x) (fun _ => fill fuel' item off x m))
                    item len off v m
@@ -429,7 +444,8 @@ Fixpoint has_var (t : ltype) : bool :=
   end.
 
 (* layout facts the filling pass relies on (C01's subject; checked on every case by the harness):
-   sizes positive, every fixed-size field inside its struct, a bit-field's unit inside its struct,
+   sizes positive, every fixed-size field inside its struct, a bit-field's unit inside its struct
+   and its bits inside the unit (1 <= bits, shift + bits <= 8 * size <= 64),
    a flexible array starts inside, CT_WITH_VAR_ARRAY set where a member is a var-sized struct *)
 Fixpoint wf_type (t : ltype) : bool :=
   match t with
@@ -444,7 +460,12 @@ Fixpoint wf_type (t : ltype) : bool :=
              wf_type ft && (0 <=? off) &&
              (if is_flex ft then (off <=? size) && var && (shift <? 0)
               else off + lsize ft <=? size) &&
-             (if 0 <=? shift then match ft with LPrim _ _ => true | _ => false end else true) &&
+             (if 0 <=? shift
+              then match ft with
+                   | LPrim _ s => (0 <? bits) && (shift + bits <=? 8 * s) && (s <=? 8)   (* C02's placement *)
+                   | _ => false
+                   end
+              else true) &&
              (if agg_var ft then var else true) &&
              all fs'
          end) fs
